@@ -17,7 +17,7 @@ tvars == <<avars, l>>
 TraceInit ==
   /\ l = 1
   /\ G = EmptyG /\ Gprev = EmptyG /\ lookup = FALSE /\ amode = FALSE /\ caps = <<>>
-  /\ tombC = {} /\ tombN = {} /\ delivered = {} /\ eff = {} /\ pure = TRUE /\ pend = <<>>
+  /\ tombC = {} /\ tombN = {} /\ remC = {} /\ remN = {} /\ delivered = {} /\ eff = {} /\ pure = TRUE /\ pend = <<>>
 
 IsEvent(e) == l <= Len(Rec) /\ Rec[l].ev = e /\ l' = l + 1
 
@@ -49,7 +49,7 @@ TReset ==
   /\ amode' = Rec[l].async
   /\ pend' = <<>>
   /\ caps' = [c \in 1..Len(Rec[l].caps) |-> Rec[l].caps[c]]
-  /\ tombC' = {} /\ tombN' = {} /\ delivered' = {} /\ eff' = {} /\ pure' = TRUE
+  /\ tombC' = {} /\ tombN' = {} /\ remC' = {} /\ remN' = {} /\ delivered' = {} /\ eff' = {} /\ pure' = TRUE
 
 \* return value: an applied message must have been reported Ok, a message the property
 \* requires to be refused must have been reported as an error; otherwise not prescribed
